@@ -74,9 +74,17 @@ def run(chk):
                 "multisections, abstract types, derived types, key types basic-key/identifier/ipaddr-or-hostname, "
                 "nesting <= 3) every text over the schema's vocabulary (declared keys in two cases, undeclared and "
                 "illegal keys, convertible/unconvertible values, headers for every type x names, unknown and abstract "
-                "types, closers) up to the line bound whose proper prefixes are not yet rejected; all distinct; "
+                "types, closers) up to the line bound (thorough: four lines over the full vocabularies and five lines over "
+                "the first twelve lines of the twelve interaction schemas) whose proper prefixes are not yet rejected; all distinct; "
                 "non-trivial = at least one line")
-    explore(chk, docs, cap=(20 if quick else 26), maxlines=(4 if quick else 5), tree=False)
+    if quick:
+        explore(chk, docs, cap=20, maxlines=4, tree=False)
+    else:
+        # two cuts through the space: wide vocabularies with four lines, five lines over the most useful twelve
+        explore(chk, docs, cap=26, maxlines=4, tree=False)
+        explore(chk, docs[:12], cap=12, maxlines=5, tree=False)
+        chk.note("thorough_parts", [{"schemas": len(docs), "vocabulary": 26, "max_lines": 4},
+                                    {"schemas": 12, "vocabulary": 12, "max_lines": 5}])
     chk.exhaustive = True
     chk.note("schema_digest_mismatches", len(loadgen.DIGEST_MISMATCH))
     chk.assumptions += ["key-type and datatype results on vocabulary tokens are environment tables stated by reference "
